@@ -2,7 +2,8 @@
 A relation between two whole enumerations; decided through four solver-checked lemmas on the real code plus a written
 composition argument (level: other):
  L-suit  (Kani)  MadeHand::from(sigma . cards) == MadeHand::from(cards) for every permutation sigma of the four suits
- L-flags (Kani)  winner flags / winner_len / hands are equivariant under exchanging two seats (uninterpreted strengths)
+ L-flags (Kani)  flag(p) <=> hand(p) == min over all players, hand(p) = evaluation of the own seven cards of p (uninterpreted
+                 strengths): a characterisation that does not mention the seat, hence equivariant under any reordering of the players
  L-enum  (mirx)  the set of deals next() yields is the spec set (C02's inductive step, n = 2), whose definition is symmetric
                  under suit relabelling and under player permutation
  L-pot   (z3)    winner_len >= 1 and equals the number of flagged players (C03 harness), so k shares of 1/k add up to one pot"""
@@ -34,11 +35,17 @@ def main():
     if a.tier == 'thorough':
         h1 += [Harness('c11_suit_perm', MOD1, 5400, key='suit-dependence', desc='all C(52,7) sets x 24 suit permutations: evaluation unchanged'),
                Harness('c01_rainbow_ignores_suits', MOD1, 3600, key='suit-dependence', desc='hash_for_rainbow depends on the rank sequence only')]
-    h3 = [Harness('c11_flags_player_perm_2', MOD3, 1200, extra=ST, covers=['a two-way tie reached'], key='seat-dependence',
-                  desc='2 players, symbolic seat exchange: flags, hands and winner_len follow the players')]
+    # L-flags: a player's flag is (own hand == minimum over all players) and hand() is the evaluation of the player's own seven cards,
+    # for arbitrary strengths - a characterisation that does not mention the seat, hence equivariant under any reordering of the players.
+    # (The direct two-run form, Showdown::new on a symbolically permuted player list, did not finish in 30 min for n = 2: thorough tier only.)
+    cov2 = ['a two-way tie reached', 'an all-way tie reached', 'last player wins alone', 'first player wins alone']
+    h3 = [Harness('c03_flags_uf_2', MOD3, 900, extra=ST, covers=cov2, key='seat-dependence',
+                  desc='2 players, arbitrary strengths: flag(p) <=> hand(p) == min, hand(p) = evaluation of the own seven cards of p, winner_len = number of flags >= 1'),
+          Harness('c03_flags_uf_3', MOD3, 1500, extra=ST, covers=cov2, key='seat-dependence', mem_gb=16,
+                  desc='3 players, same characterisation')]
     if a.tier == 'thorough':
-        h3.append(Harness('c11_flags_player_perm_3', MOD3, 3600, extra=ST, covers=['a two-way tie reached'], key='seat-dependence', mem_gb=24,
-                          desc='3 players, symbolic exchange of two seats'))
+        h3.append(Harness('c11_flags_player_perm_2', MOD3, 7200, extra=ST, covers=['a two-way tie reached'], key='seat-dependence', mem_gb=40,
+                          desc='2 players, symbolic seat exchange, two Showdown::new runs compared directly'))
     try:
         import re, threading
         res = {}
@@ -58,7 +65,7 @@ def main():
             kani_prepare(s3, {'src/evaluator/showdown.rs': module_text('c03_showdown.rs')})
             tgt = os.path.join(scratch(), 'kani-target-3')
             kanilib.kani_build(s3, tgt, list(ST))
-            rr = parallel([(h.name, (lambda h=h: kanilib.kani_run(s3, tgt, h))) for h in h3], 2)
+            rr = parallel([(h.name, (lambda h=h: kanilib.kani_run(s3, tgt, h))) for h in h3], 3)
             res['k3'] = [kanilib.to_obligation(s3, h, rr[h.name]) for h in h3]
         t1 = threading.Thread(target=kpart); t3 = threading.Thread(target=k3part)
         t1.start(); t3.start()
@@ -78,7 +85,7 @@ def main():
         obs.append(Obligation('setup', 'inconclusive', str(e)[-1500:]))
     cov = dict(explanation='Tallies are sums over the set of yielded deals of functions of the winner flags. L-enum: that set is exactly the set of legal deals (all 5+2n cards distinct, one combo per player) - a definition '
                            'symmetric under a suit permutation sigma applied to flop and ranges, and under a permutation of the players. sigma and player permutations are therefore bijections of the deal set; L-suit says every '
-                           'player\'s hand value is unchanged by sigma, L-flags says flags, hands and winner_len follow the players under reordering; hence every per-deal contribution is carried to the corresponding deal, '
+                           'player\'s hand value is unchanged by sigma, L-flags characterises each flag by the player's own hand against the minimum over all players, without reference to the seat, so flags, hands and winner_len follow the players under reordering; hence every per-deal contribution is carried to the corresponding deal, '
                            'and the tallies are equal / permuted. L-pot gives the one-pot clause. The composition is an argument, not a solver step; a direct two-run relational query would need both complete enumerations in one formula.',
                evaluations=sum(o.queries for o in obs), distinct_nontrivial=len(obs),
                samples=[dict(lemma=o.name, status=o.status, detail=o.detail[:200]) for o in obs],
